@@ -115,7 +115,7 @@ def run(ctx):
     if not os.listdir(e_hist) or not os.listdir(e_sim):
         raise broken("no behaviours emitted")
     dirs = e_hist + os.pathsep + e_sim
-    ctx.go_test("./treeauth", run="TestReplay$", env={"VERIF_BEHAVIOURS": dirs, "VERIF_MAX_CASES": 40 if thorough else 30},
+    ctx.go_test("./treeauth", run="TestReplay$", env={"VERIF_BEHAVIOURS": dirs, "VERIF_MAX_CASES": 30},
                 timeout=2400)
     # 2b. byte-offset sweeps of the "bytes altered" classes
     ctx.go_test("./treeauth", run="TestSweep$", env={"VERIF_BEHAVIOURS": e_sim, "VERIF_SWEEP_CONTEXTS": 12 if thorough else 4,
